@@ -98,6 +98,10 @@ META = {
         assumptions=["the caller commits the local transaction iff WithFence returns nil (as the fence driver and the "
                      "samples do)"],
         exhaustive={"quick": True, "thorough": True},
+        # directed races (op `race …`): the model prints the outcome of exactly the interleaving the harness
+        # tries to force and the set of outcomes the property allows; where the scheduler did not produce that
+        # interleaving the implementation's outcome must still be one of the allowed ones
+        compare=lambda cid, impl, model, tags: cid.startswith("race-d") and _race_ok(impl, model),
     ),
     "C05": dict(
         rule="TCC prepare inside a real global transaction with parameter structs of several shapes (unexported fields, "
@@ -319,6 +323,14 @@ def _member(impl, model):
             if x not in s.strip("{}").split(","):
                 return False
     return True
+
+
+def _race_ok(impl, model):
+    import re
+    m = re.match(r"exp=\[(.*?)\] allowed=\[(.*)\]$", model)
+    if not m:
+        return False
+    return impl == m.group(1) or impl in m.group(2).split("|")
 
 
 def _strip_sup(x):
